@@ -914,8 +914,8 @@ def sub_case(ctx, k, cid):
 def run(ctx):
     import warnings
     warnings.simplefilter("ignore")
-    nb = 30000 if ctx.thorough else 2400
-    ns = 12000 if ctx.thorough else 1000
+    nb = 90000 if ctx.thorough else 2400
+    ns = 36000 if ctx.thorough else 1000
     total = ctx.time_left()
     for k in range(nb):
         if not ctx.mine(k):
